@@ -142,9 +142,14 @@ def t_concat(parts):
     return Term("concat", out, "bytes")
 
 
+LEN_OF_OP = {}     # op -> fixed byte length, registered by models after analysing the encoder
+
+
 def t_len(v):
     if isinstance(v, (bytes, bytearray, tuple, list)):
         return len(v)
+    if isinstance(v, Term) and v.op in LEN_OF_OP:
+        return LEN_OF_OP[v.op]
     if hasattr(v, "sym_len"):
         return v.sym_len()
     if isinstance(v, Term):
